@@ -81,6 +81,7 @@ func main() {
 		"ExtKeyUsage filter; every signer then signs and the message is verified with a Verifier bound to its ISD-AS and " +
 		"to another one; sign: Signer.validate on and around the expiry; non-trivial = Generate reaches bestForKey"
 	rng := vgen.NewRand(run.Seed)
+	coverSanity(run)
 	ng := run.Count(260, 6000)
 	for i := 0; i < ng; i++ {
 		genCase(run, rng.Fork(uint64(i)), i)
@@ -377,4 +378,27 @@ func genCase(run *vgen.Run, r *vgen.Rand, idx int) {
 	run.Add("gen", term, term, latestState < 6 || latestState >= 8, map[string]any{"nTRC": nTRC, "rotateAt": rotateAt,
 		"latestState": latestState, "graceState": graceState, "latestNA": latestNA, "predNA": predNA, "dropPred": dropPred,
 		"keys": keyKind, "chains": fmt.Sprint(chains), "eku": eku, "err": gerr != nil, "signers": desc}, tags...)
+}
+
+// coverSanity checks the hypothesis of C36_sign_verify_lifetime on the real
+// code: a TRC that carries a certificate (here the root) ending before the TRC
+// itself is rejected by cppki.TRC.Validate (which Encode and DecodeTRC call), so
+// no such TRC can be stored in or read from the trust DB.
+func coverSanity(run *vgen.Run) {
+	g := pkigen.NewGen()
+	t0 := time.Unix(1900000000, 0).UTC()
+	h := func(n int) time.Time { return t0.Add(time.Duration(n) * time.Hour) }
+	sens := g.MustIssue(g.Tmpl(pkigen.Sensitive, iaCore, "sens", h(-900), h(900)), g.NewKey(), nil, nil)
+	reg := g.MustIssue(g.Tmpl(pkigen.Regular, iaCore, "reg", h(-900), h(900)), g.NewKey(), nil, nil)
+	short := g.MustIssue(g.Tmpl(pkigen.Root, iaCore, "root", h(-500), h(100)), g.NewKey(), nil, nil)
+	late := g.MustIssue(g.Tmpl(pkigen.Root, iaCore, "root", h(-300), h(900)), g.NewKey(), nil, nil)
+	for _, root := range []*pkigen.Cert{short, late} {
+		_, err := pkigen.MakeTRC(pkigen.TRCSpec{ISD: 1, Base: 1, Serial: 1, NB: h(-400), NA: h(400),
+			Certs: []*pkigen.Cert{sens, reg, root}, Signers: []*pkigen.Cert{sens, reg}})
+		run.Tally(fmt.Sprintf("trc-cover-rejected:%v", err != nil))
+		if err == nil {
+			run.Violate(0, "a TRC whose root certificate does not cover the TRC validity was accepted by cppki.TRC.Validate",
+				nil, "trc-not-covered")
+		}
+	}
 }
